@@ -176,7 +176,7 @@ def run(ctx):
     quick = ctx.tier == 'quick'
     jobs = [{'kind': 'rebalance', 'ordered': o, 'report': rep, 'chunks': c} for o in (False, True) for rep in (True, False) for c in ((1, 2) if not quick else (1,)) if (rep or not o)]
     for (a, bb) in ([(1, 1), (1, 2), (2, 1)] if quick else [(1, 1), (2, 2), (1, 2), (2, 1), (2, 3), (3, 2), (1, 3)]):
-        shapes = [list(range(2 * a))] if quick else [list(range(2 * a))] + [s for s in owner_shapes(2 * a, 2) if len(s) == 2 * a + 1][:3]
+        shapes = [list(range(2 * a))] if quick else [list(range(2 * a))] + [s for s in owner_shapes(2 * a, 2, 2 * a + 1) if len(s) == 2 * a + 1][:3]
         for sh in shapes:
             for spare in (False, True):
                 jobs.append({'from': a, 'to': bb, 'shape': sh, 'spare': spare, 'roles': True})
